@@ -158,8 +158,8 @@ CanEmpty(g) ==
     [] o \in {"enum", "cfgrep"} -> TRUE
     [] o \in {"collect", "run"} -> CanEmpty(g[2])
     [] o = "exact" -> g[3] = 0 \/ CanEmpty(g[2])
-    [] o = "foldl" -> CanEmpty(g[2]) /\ CanEmpty(g[3])
-    [] o = "foldr" -> CanEmpty(g[2]) /\ CanEmpty(g[3])
+    [] o \in {"foldl", "foldlw"} -> CanEmpty(g[2]) /\ CanEmpty(g[3])
+    [] o \in {"foldr", "foldrw"} -> CanEmpty(g[2]) /\ CanEmpty(g[3])
     [] o = "recover" -> TRUE
     [] o = "ref" -> TRUE
     [] o \in {"withctx", "mapctx"} -> CanEmpty(g[3])
@@ -193,8 +193,8 @@ WF(g) ==
     [] o \in {"ornot", "not", "rewind", "map", "to", "ignored", "filter", "trymap", "trymapw", "validate", "mw",
               "tospan", "toslice", "boxed", "memo", "label", "maperr", "rec", "withstate", "lazy"} -> WF(g[2])
     [] o \in {"collect", "run", "exact"} -> WFIter(g[2])
-    [] o = "foldl" -> WF(g[2]) /\ WFIter(g[3])
-    [] o = "foldr" -> WFIter(g[2]) /\ WF(g[3])
+    [] o \in {"foldl", "foldlw"} -> WF(g[2]) /\ WFIter(g[3])
+    [] o \in {"foldr", "foldrw"} -> WFIter(g[2]) /\ WF(g[3])
     [] o = "recover" -> WF(g[2]) /\ WFStrat(g[3])
     [] o \in {"withctx", "mapctx"} -> WF(g[3])
     [] o = "pratt" -> WF(g[2]) /\ ~CanEmpty(g[2])
@@ -215,7 +215,7 @@ HasOp(g, ops) ==
                  "tospan", "toslice", "boxed", "memo", "label", "maperr", "rec", "withstate", "lazy",
                  "collect", "run", "exact", "rep", "enum", "cfgrep"} -> HasOp(g[2], ops)
        [] o = "sep" -> HasOp(g[2], ops) \/ HasOp(g[3], ops)
-       [] o \in {"foldl", "foldr"} -> HasOp(g[2], ops) \/ HasOp(g[3], ops)
+       [] o \in {"foldl", "foldr", "foldlw", "foldrw"} -> HasOp(g[2], ops) \/ HasOp(g[3], ops)
        [] o = "recover" -> HasOp(g[2], ops) \/ HasOp(g[3], ops)
        [] o \in {"via"} -> HasOp(g[2], ops)
        [] o \in {"skipuntil", "retry"} -> HasOp(g[2], ops) \/ HasOp(g[3], ops)
@@ -228,7 +228,7 @@ SizeSeq(s) == IF s = <<>> THEN 0 ELSE Size(Head(s)) + SizeSeq(Tail(s))
 Size(g) ==
   LET o == Op(g) IN
   CASE o \in {"just", "any", "oneof", "noneof", "sel", "end", "empty", "cust", "probe", "cfgjust", "cfgjustr", "ref", "tree"} -> 1
-    [] o \in {"then", "ithen", "theni", "or", "andis", "thenctx", "ignctx", "nested", "padded", "sep", "foldl", "foldr", "recover", "skipuntil", "retry"} -> 1 + Size(g[2]) + Size(g[3])
+    [] o \in {"then", "ithen", "theni", "or", "andis", "thenctx", "ignctx", "nested", "padded", "sep", "foldl", "foldr", "foldlw", "foldrw", "recover", "skipuntil", "retry"} -> 1 + Size(g[2]) + Size(g[3])
     [] o = "delim" -> 1 + Size(g[2]) + Size(g[3]) + Size(g[4])
     [] o \in {"group", "grouparr", "choice", "choicev"} -> 1 + SizeSeq(g[2])
     [] o \in {"withctx", "mapctx"} -> 1 + Size(g[3])
